@@ -4,7 +4,8 @@
     both generic over the scalar class and instantiated here at [R] with [sqrt].
     Arrays are shape + row-major flat data of complex pairs; [ext] adds [+inf]. *)
 From Coq Require Import List Bool Arith Reals QArith Qcanon.
-From SV Require Import Base.Num C09.Defs C09.Spec C09.Impl C09.Thm C09.Exec C09.ExecThm.
+From SV Require Import Base.Num C09.Defs C09.Spec C09.Impl C09.Thm C09.Exec C09.ExecThm C09.GenSig C09.Gen.
+From SVGen Require Import C09_Metric.
 Import ListNotations.
 Open Scope R_scope.
 
@@ -215,6 +216,35 @@ Theorem C09_executable_sqrt : forall s : Qc,
 Proof. exact qrt_bracket. Qed.
 Print Assumptions C09_executable_sqrt.
 
+(** scico/metric.py as REGENERATED FROM THE SOURCE on every run (coq/gen/C09_Metric.v, tools/py2coq.py), with the library
+    routines it calls interpreted by the array operations of C09/Impl.v ([MS_impl]), computes the documented
+    definitions: for all arrays of every length, real or complex, every [signal_range] (given or defaulted), every log10 *)
+Theorem C09_gen_metric : forall lg : R -> R,
+  (forall r c : list cxR, mae_gen (MS:=MS_impl sqrt lg) r c = mae_spec sqrt r c) /\
+  (forall r c : list cxR, mse_gen (MS:=MS_impl sqrt lg) r c = mse_spec r c) /\
+  (forall r c : list cxR, snr_gen (MS:=MS_impl sqrt lg) r c = snr_spec lg r c) /\
+  (forall range (r c : list cxR), psnr_gen__signal_range (MS:=MS_impl sqrt lg) r c range = psnr_spec lg range r c) /\
+  (forall r c : list cxR, psnr_gen__none (MS:=MS_impl sqrt lg) r c = psnr_spec lg (range_of r) r c) /\
+  (forall r d s : list cxR, isnr_gen (MS:=MS_impl sqrt lg) r d s = isnr_spec lg r d s) /\
+  (forall b n : list cxR, bsnr_gen (MS:=MS_impl sqrt lg) b n = bsnr_spec lg b n) /\
+  (forall ax b : list cxR, rel_res_gen (MS:=MS_impl sqrt lg) ax b = relres_spec sqrt ax b).
+Proof. exact gen_metric_spec. Qed.
+Print Assumptions C09_gen_metric.
+
+(** the executable [*_impl] metric functions which the correspondence check runs against scico (at [Qc]) are
+    the source-generated definitions, for every input: the hand transcription cannot drift from the source *)
+Theorem C09_gen_metric_exec : forall rt lg : Qc -> Qc,
+  (forall r c : list (cx (K:=Qc)), mae_impl rt r c = mae_gen (MS:=MS_impl rt lg) r c) /\
+  (forall r c : list (cx (K:=Qc)), mse_impl rt r c = mse_gen (MS:=MS_impl rt lg) r c) /\
+  (forall r c : list (cx (K:=Qc)), snr_impl rt lg r c = snr_gen (MS:=MS_impl rt lg) r c) /\
+  (forall range (r c : list (cx (K:=Qc))), psnr_impl rt lg range r c = psnr_gen__signal_range (MS:=MS_impl rt lg) r c range) /\
+  (forall r c : list (cx (K:=Qc)), psnr_impl rt lg (range_impl r) r c = psnr_gen__none (MS:=MS_impl rt lg) r c) /\
+  (forall r d s : list (cx (K:=Qc)), isnr_impl rt lg r d s = isnr_gen (MS:=MS_impl rt lg) r d s) /\
+  (forall b n : list (cx (K:=Qc)), bsnr_impl lg b n = bsnr_gen (MS:=MS_impl rt lg) b n) /\
+  (forall ax b : list (cx (K:=Qc)), relres_impl rt ax b = rel_res_gen (MS:=MS_impl rt lg) ax b).
+Proof. exact gen_metric_exec. Qed.
+Print Assumptions C09_gen_metric_exec.
+
 (** *** non-vacuity: the executable instance evaluates the same definitions on concrete data *)
 Example C09_ex_l2ball_boundary :
   l2ball_exec (q (5 # 1)) (LR [3 # 1; (-4) # 1]) = Fin 0%Qc /\
@@ -238,3 +268,11 @@ Example C09_ex_loss_not_even :
   loss_impl (nonneg_impl (K:=Qc)) 1%Qc (LR [1 # 1]) (LR [0 # 1]) = PInf /\
   loss_spec (nonneg_spec (K:=Qc)) 1%Qc (LR [1 # 1]) (LR [0 # 1]) = Fin 0%Qc.
 Proof. vm_compute. split; reflexivity. Qed.
+
+Example C09_ex_gen_metric :
+  let lg := fun x : Qc => x in
+  map (@this) [mse_gen (MS:=MS_impl qrt lg) (LR [1 # 1; 2 # 1]) (LR [0 # 1; 0 # 1]); mse_impl qrt (LR [1 # 1; 2 # 1]) (LR [0 # 1; 0 # 1]);
+               rel_res_gen (MS:=MS_impl qrt lg) (LR [0 # 1]) (LR [0 # 1]);
+               bsnr_gen (MS:=MS_impl qrt lg) (LR [1 # 1; 3 # 1]) (LR [2 # 1; 3 # 1]); bsnr_impl lg (LR [1 # 1; 3 # 1]) (LR [2 # 1; 3 # 1])]
+  = [5 # 2; 5 # 2; 0 # 1; 40 # 1; 40 # 1]%Q.
+Proof. vm_compute. reflexivity. Qed.
